@@ -7,6 +7,7 @@ Reads (through `clang++ -Xclang -ast-dump=json -Xclang -ast-dump-filter=<fn>`):
   mainsubs.cpp  Phreeqc::copy_entities
   read.cpp      Phreeqc::read_copy
   Phreeqc.cpp   Phreeqc::list_components
+  mainsubs.cpp  Phreeqc::saver, Phreeqc::do_mixes
 and emits one Coq record `tables : gen_tables` (see coq/C14/Store.v).  The translator only
 transliterates: every statement of the functions must fit the (small) statement patterns below,
 anything else is a refusal (exception) and therefore a broken tie.  What the extracted data has to
@@ -627,6 +628,121 @@ def table_read_copy(fn):
     return kw, cell
 
 
+# ----------------------------------------------------------------------------- saver / do_mixes
+
+SAVE_FN = {"xsolution_save": "KSol", "xpp_assemblage_save": "KPP", "xexchange_save": "KExch", "xsurface_save": "KSurf",
+           "xgas_save": "KGas", "xss_assemblage_save": "KSS"}
+
+
+def table_saver(fn):
+    c = Canon(fn)
+    body = as_block(c.s(c.body))
+    rows = []
+    for x in body:
+        if x[0] in ("decl", "ret"):
+            continue
+        if x[0] != "if" or x[3] is not None:
+            raise Refuse("saver: statement %r not in subset" % (x[:2],))
+        cond = x[1]
+        if re.match(r"\(?save\.kinetics==1", cond):
+            maps = set(re.findall(r"Rxn_(\w+?)_map", repr(x[2])))
+            if maps - {"kinetics"}:
+                raise Refuse("saver: the kinetics block touches %s" % sorted(maps))
+            continue
+        m = re.fullmatch(r"save\.(\w+)==1", cond) or re.fullmatch(r"save\.(\w+)", cond)
+        if not m or m.group(1) not in STEM:
+            raise Refuse("saver: block condition `%s`" % cond)
+        flag = STEM[m.group(1)]
+        nvar = sv_n = sv_fn = None
+        tail = None
+        for y in as_block(x[2]):
+            if y[0] == "expr":
+                t = y[1]
+                m = re.fullmatch(r"(v\d+)=save\.n_(\w+?)_user", t)
+                if m and m.group(2) in STEM and nvar is None:
+                    nvar, sv_n = m.group(1), STEM[m.group(2)]
+                    continue
+                m = re.fullmatch(r"(x\w+_save)\((v\d+)\)", t)
+                if m and m.group(1) in SAVE_FN and m.group(2) == nvar and sv_fn is None:
+                    sv_fn = SAVE_FN[m.group(1)]
+                    continue
+                m = re.fullmatch(r"(?:Utilities::)?Rxn_copies\(Rxn_(\w+?)_map,(v\d+|save\.n_(\w+?)_user),save\.n_(\w+?)_user_end\)", t)
+                if m and sv_fn is not None and tail is None:
+                    if m.group(1) not in STEM or m.group(4) not in STEM:
+                        raise Refuse("saver: Rxn_copies call `%s`" % t)
+                    if m.group(2) == nvar:
+                        frm = sv_n
+                    elif m.group(3) in STEM:
+                        frm = STEM[m.group(3)]
+                    else:
+                        raise Refuse("saver: Rxn_copies source `%s`" % t)
+                    tail = (STEM[m.group(1)], frm, STEM[m.group(4)], False)
+                    continue
+                if "save." in t or "Rxn_" in t:
+                    raise Refuse("saver: statement `%s` not in subset" % t)
+                continue            # description text etc.
+            if y[0] == "for" and sv_fn is not None and tail is None:
+                _, init, fc, inc, fb = y
+                if not init or init[0] != "expr":
+                    raise Refuse("saver: loop init of %s" % flag)
+                m = re.fullmatch(r"(v\d+)=\(?save\.n_(\w+?)_user\+1\)?", init[1])
+                if not m or m.group(2) not in STEM:
+                    raise Refuse("saver: loop start `%s`" % init[1])
+                lv, frm = m.group(1), STEM[m.group(2)]
+                m = re.fullmatch(lv + r"<=save\.n_(\w+?)_user_end", fc or "")
+                if not m or m.group(1) not in STEM:
+                    raise Refuse("saver: loop bound `%s`" % fc)
+                end = STEM[m.group(1)]
+                if inc != "++" + lv:
+                    raise Refuse("saver: loop increment `%s`" % inc)
+                fb = as_block(fb)
+                if len(fb) != 1 or fb[0][0] != "expr":
+                    raise Refuse("saver: loop body of %s" % flag)
+                m = re.fullmatch(r"(?:Utilities::)?Rxn_copy\(Rxn_(\w+?)_map," + nvar + "," + lv + r"\)", fb[0][1])
+                if not m or m.group(1) not in STEM:
+                    raise Refuse("saver: loop body `%s`" % fb[0][1])
+                tail = (STEM[m.group(1)], frm, end, True)
+                continue
+            if y[0] == "decl":
+                continue
+            raise Refuse("saver: statement %r in block %s not in subset" % (y[:2], flag))
+        if sv_n is None or sv_fn is None or tail is None:
+            raise Refuse("saver: block %s incomplete (n=%s, save function=%s, copies=%s)" % (flag, sv_n, sv_fn, tail))
+        rows.append((flag, sv_n, sv_fn) + tail)
+    return rows
+
+
+def table_mixes(fn):
+    c = Canon(fn)
+    pairs = []
+
+    def walk(n):
+        if n.get("kind") in ("CallExpr", "CXXMemberCallExpr"):
+            try:
+                t = c.expr(n)
+            except Refuse:
+                t = ""
+            m = re.fullmatch(r"(?:Utilities::)?Rxn_mix\(Rxn_(\w+?)_mix_map,Rxn_(\w+?)_map,this\)", t)
+            if m:
+                if m.group(1) not in STEM or m.group(2) not in STEM:
+                    raise Refuse("do_mixes: call `%s`" % t)
+                pairs.append((STEM[m.group(1)], STEM[m.group(2)]))
+                return
+            if t.startswith("Rxn_mix(") or t.startswith("Utilities::Rxn_mix("):
+                raise Refuse("do_mixes: call `%s` not in subset" % t)
+        for ch in n.get("inner", []):
+            walk(ch)
+    # declarations first so that locals have canonical names
+    def decls(n):
+        if n.get("kind") == "DeclStmt":
+            c.s(n)
+        for ch in n.get("inner", []):
+            decls(ch)
+    decls(c.body)
+    walk(c.body)
+    return pairs
+
+
 # ----------------------------------------------------------------------------- list_components
 
 def table_components(fn):
@@ -657,8 +773,10 @@ def generate(repo, guard_flags=("-DIPHREEQC_VERIF", "-DSWIG_SHARED_OBJ", "-DUSE_
         "delete": ("src/phreeqcpp/ReadClass.cxx", "delete_entities"),
         "read_copy": ("src/phreeqcpp/read.cpp", "read_copy"),
         "components": ("src/phreeqcpp/Phreeqc.cpp", "list_components"),
+        "saver": ("src/phreeqcpp/mainsubs.cpp", "saver"),
+        "mixes": ("src/phreeqcpp/mainsubs.cpp", "do_mixes"),
     }
-    with cf.ThreadPoolExecutor(max_workers=5) as ex:
+    with cf.ThreadPoolExecutor(max_workers=4) as ex:
         futs = {k: ex.submit(clang_ast, repo, v[0], v[1], list(guard_flags)) for k, v in jobs.items()}
         ast = {k: f.result() for k, f in futs.items()}
     cs = shape_rxn_copy(find_def(ast["tmpl"], "Rxn_copy"))
@@ -667,6 +785,8 @@ def generate(repo, guard_flags=("-DIPHREEQC_VERIF", "-DSWIG_SHARED_OBJ", "-DUSE_
     crows, cres = table_copy(find_def(ast["copy"], "copy_entities"))
     kw, cell = table_read_copy(find_def(ast["read_copy"], "read_copy"))
     comps = table_components(find_def(ast["components"], "list_components"))
+    srows = table_saver(find_def(ast["saver"], "saver"))
+    mixes = table_mixes(find_def(ast["mixes"], "do_mixes"))
     b = lambda x: "true" if x else "false"
     L = lambda xs: "[" + "; ".join(xs) + "]"
     out = []
@@ -681,7 +801,9 @@ def generate(repo, guard_flags=("-DIPHREEQC_VERIF", "-DSWIG_SHARED_OBJ", "-DUSE_
     out.append("  g_copy_resets := %s;" % b(cres))
     out.append("  g_copy_kw := %s;" % L(["(%s, %s)" % (k, L(t)) for k, t in kw]))
     out.append("  g_copy_cell := %s;" % L(cell))
-    out.append("  g_components := %s" % L(comps))
+    out.append("  g_components := %s;" % L(comps))
+    out.append("  g_saver := %s;" % L(["{| sv_flag := %s; sv_n := %s; sv_fn := %s; sv_map := %s; sv_from := %s; sv_end := %s; sv_loop := %s |}" % (r[:6] + (b(r[6]),)) for r in srows]))
+    out.append("  g_mixes := %s" % L(["(%s, %s)" % p for p in mixes]))
     out.append("|}.\n")
     return "\n".join(out)
 
